@@ -39,6 +39,7 @@ class Translator:
         self.sp, self.f, self.n = sp, f, n
         self.choices = choices if choices is not None else {}
         self.where_sites = []
+        self.eq_guards = []     # (h, line): `if h == 0` tests on the point, taken as false (generic point); the rule checks the set h = 0
         self.helpers = helpers or {}
         self.xs = sp.symbols(f"x0:{n}", real=True)
         if arg is None:
@@ -115,6 +116,10 @@ class Translator:
                 return sp.pi
             if d == "np.e":
                 return sp.E
+            if e.attr == "shape":
+                v = self.ev(e.value)
+                if isinstance(v, SymArr):
+                    return sp.Integer(len(v))       # 1-d arrays only: the shape (n,) stands for n where a size is expected
             if e.attr == "size":
                 v = self.ev(e.value)
                 return sp.Integer(len(v)) if isinstance(v, SymArr) else sp.Integer(1)
@@ -160,6 +165,11 @@ class Translator:
     def call(self, c: ast.Call):
         sp = self.sp
         d = dotted(c.func)
+        FLOAT_DT = ("float", "np.float64", "np.double", "np.float_", "'float64'", "'float'", "'d'")
+        if c.keywords and d in ("np.zeros", "np.ones", "np.empty", "np.zeros_like", "np.ones_like", "np.empty_like", "np.asarray", "np.array",
+                                "np.full", "np.full_like") and \
+                all(k.arg == "dtype" and (dotted(k.value) or ast.unparse(k.value)) in FLOAT_DT for k in c.keywords):
+            c = ast.Call(func=c.func, args=c.args, keywords=[])     # a real floating dtype does not change the formula
         if c.keywords and not (d == "np.divide" and {k.arg for k in c.keywords} <= {"out", "where"}):
             self.err(c, "keyword arguments")
         if d == "np.concatenate" and len(c.args) == 1 and isinstance(c.args[0], (ast.Tuple, ast.List)) and not c.keywords:
@@ -207,6 +217,12 @@ class Translator:
             if not isinstance(a, SymArr):
                 return a
             return sp.Add(*a.e) if d == "np.sum" else sp.Mul(*a.e)
+        if d in ("np.cumprod", "np.cumsum") and len(args) == 1 and isinstance(args[0], SymArr):
+            acc, out_ = None, []
+            for v_ in args[0].e:
+                acc = v_ if acc is None else (acc * v_ if d == "np.cumprod" else acc + v_)
+                out_.append(acc)
+            return SymArr(out_)
         if d == "np.arange" and 1 <= len(args) <= 2:
             iv = [int(a) for a in args]
             return SymArr([sp.Integer(i) for i in range(*iv)])
@@ -335,6 +351,12 @@ class Translator:
             return all(vs) if isinstance(t.op, ast.And) else any(vs)
         if isinstance(t, ast.Compare) and len(t.ops) == 1:
             a, b = self.ev(t.left), self.ev(t.comparators[0])
+            if isinstance(t.ops[0], (ast.Eq, ast.NotEq)) and not isinstance(a, SymArr) and not isinstance(b, SymArr) and \
+                    not (a.is_number and b.is_number):
+                # an equality test on the point holds on a set of measure zero: the generic branch is the formula; the rule
+                # accepts the case only where that set lies in the singular set of the function (see guard_singular)
+                self.eq_guards.append((a - b, getattr(t, "lineno", 0), short(t, 50)))
+                return isinstance(t.ops[0], ast.NotEq)
             if isinstance(a, SymArr) or isinstance(b, SymArr) or not (a.is_number and b.is_number):
                 raise PiecewiseDefinition(f"{self.f.name} branches on `{short(t, 50)}`, a test on the point (line {getattr(t, 'lineno', '?')})")
             ops = {ast.Lt: lambda x, y: x < y, ast.LtE: lambda x, y: x <= y, ast.Gt: lambda x, y: x > y, ast.GtE: lambda x, y: x >= y,
@@ -400,6 +422,45 @@ def residual_zero(sp, res, xs) -> Tuple[bool, str, Optional[dict]]:
     return True, f"numeric identity test: |residual| <= {worst:.1e} at 3 rational points (60 digits)", None
 
 
+def guard_singular(sp, fx, xs, h) -> bool:
+    """is the set {h = 0} inside the singular set of fx (some partial derivative of fx undefined there)?  Decided only for
+    h a positive definite form (zero set = the origin) or h of degree 1 in one variable; anything else: no."""
+    subs = None
+    try:
+        P = sp.Poly(h, *xs)
+        if all(c.is_positive and all(e_ % 2 == 0 for e_ in mon) and sum(mon) > 0 for mon, c in P.terms()) and \
+                all(any(mon[i] for mon, _ in P.terms()) for i in range(len(xs))):
+            subs = {x: 0 for x in xs}
+        else:
+            for x in xs:
+                if P.degree(x) == 1:
+                    sol = sp.solve(h, x)
+                    if len(sol) == 1:
+                        subs = {x: sol[0]}
+                        break
+    except Exception:
+        return False
+    if subs is None:
+        return False
+    for x in xs:
+        D = sp.diff(fx, x)
+        try:
+            for sg in D.atoms(sp.sign):
+                if sp.simplify(sg.args[0].subs(subs)) == 0:
+                    # a kink: the one-sided derivatives differ on the set
+                    jump = (D.subs(sg, 1) - D.subs(sg, -1)).subs(subs)
+                    if jump.has(sp.nan, sp.zoo) or sp.simplify(jump) != 0:
+                        return True
+            v = D.subs(subs)
+            if v.has(sp.nan, sp.zoo, sp.oo, -sp.oo):
+                return True
+            if sp.simplify(sp.denom(sp.together(D)).subs(subs)) == 0:
+                return True
+        except Exception:
+            continue
+    return False
+
+
 def _nmax() -> int:
     # the property quantifies over n in 1..12; the whole range costs about 7 s on the current tree, so both tiers cover it
     # (a table that is only wrong beyond n = 10 -- seeded change R2_C19-b -- needs n >= 11)
@@ -432,10 +493,13 @@ def rule_ad(ctx: Ctx) -> List[Ob]:
     N = _nmax()
     helpers = {h.name: h for h in ctx.repo.funcs_in("benchmarks") if h.parent is None}
 
+    eqg: Dict[Tuple[str, int], list] = {}
+
     def translate(fn, n):
         """all variants of fn's body: one per combination of np.where alternatives (<= 8)"""
         t0 = Translator(sp, fn, n, {}, helpers)
         r0 = t0.run()
+        eqg[(fn.name, n)] = list(t0.eq_guards)
         sites = list(t0.where_sites)
         if not sites:
             return [("", r0)]
@@ -462,6 +526,11 @@ def rule_ad(ctx: Ctx) -> List[Ob]:
                             bad = f"n={n}: {nm}_grad returns {'a scalar' if not isinstance(gx, SymArr) else str(len(gx)) + ' components'}, expected {n}"
                             break
                         xs = sp.symbols(f"x0:{n}", real=True)
+                        for h_, ln_, txt_ in eqg.get((f.name, n), []) + eqg.get((g.name, n), []):
+                            if not guard_singular(sp, fx, xs, h_):
+                                raise PiecewiseDefinition(f"`{txt_}` (line {ln_}) selects a set of points that is not shown to be a singularity "
+                                                          f"of {nm} (n={n})")
+                            how.add("equality guard on a singular set of the function (generic branch analysed)")
                         for i in range(n):
                             res = sp.diff(fx, xs[i]) - gx.e[i]
                             ok, why, pt = residual_zero(sp, res, xs)
